@@ -33,10 +33,10 @@
 #define NCYC1 3
 #endif
 #ifndef NCYC2
-#define NCYC2 2
+#define NCYC2 3
 #endif
 #ifndef NCYC3
-#define NCYC3 3
+#define NCYC3 4
 #endif
 #ifndef VMAX
 #define VMAX 1000
